@@ -49,24 +49,132 @@ def cfi_regs(cpu):
     return sp, fp, ra
 
 
-def gen_symbols(rng, cpu, size, targets):
+# ------------------------------------------------------------------ names (strings the code splits, trims, slices)
+CALLEE_SAVED = {
+    "x86": ["$ebx", "$esi", "$edi", "$ebp"],
+    "amd64": ["$rbx", "$r12", "$r13", "$r14", "$r15", "$rbp"],
+    "arm": ["r4", "r5", "r6", "r7", "r8", "r9", "r10", "r11"],
+    "arm64": ["x19", "x20", "x21", "x22", "x23", "x24", "x25", "x26", "x27", "x28", "x29"],
+    "arm64old": ["x19", "x20", "x21", "x22", "x23", "x24", "x25", "x26", "x27", "x28", "x29"],
+    "mips": ["$s0", "$s1", "$s2", "$s3", "$s4", "$s5", "$s6", "$s7", "$gp", "$fp"],
+    "mips64": ["$s0", "$s1", "$s2", "$s3", "$s4", "$s5", "$s6", "$s7", "$gp", "$fp"],
+}
+# 2-, 3-, 4-byte UTF-8, combining mark, NBSP and other Unicode white space, zero-width, BOM, RTL mark
+NONASCII = ["é", " ", "ß", "İ", "日本", "€", "\U0001f600", "\U00010348", "é", "́",
+            " ", " ", "　", "​", "﻿", "‏", "\u0085", " "]
+SPLITTERS = ["(", ")", ",", "::", "<", ">", " ", "  ", "*", "&", "~", ":", "!", "[", "]", "`", "'", "\t", "/", "\\", ".", "+", "=", "@", "$"]
+WORDS = ["const", "volatile", "const volatile", "int", "char*", "void", "unsigned long", "std::vector<int, std::allocator<int> >",
+         "void (*)(int, char)", "operator()", "operator<", "operator<<", "operator,", "operator->", "`anonymous namespace'", "this",
+         "Widget", "paint", "ns", "T", "...", "decltype(auto)", "<lambda(int)>", "{lambda()#1}", "[abi:cxx11]", "unlimited", "n/a"]
+_LITS = None
+
+
+def source_literals():
+    """String and char literals of the anchored processing code (a fuzzing dictionary, idea of props/c17.py): text
+    the code compares with, splits on or appends is what a hostile name should contain."""
+    global _LITS
+    if _LITS is not None:
+        return _LITS
+    import re
+    import vlib
+    lits = []
+    for f in ("minidump-processor/src/arg_recovery.rs", "minidump-processor/src/process_state.rs", "minidump-processor/src/processor.rs",
+              "minidump-unwind/src/lib.rs", "breakpad-symbols/src/sym_file/mod.rs", "minidump-common/src/utils.rs"):
+        try:
+            src = open(os.path.join(vlib.REPO, f)).read()
+        except OSError:
+            continue
+        src = src.split("#[cfg(test)]")[0]
+        for m in re.finditer(r'"((?:[^"\\\n]|\\.){1,16})"', src):
+            t = m.group(1)
+            if "{" in t or "\\" in t or t in lits:
+                continue
+            lits.append(t)
+        for m in re.finditer(r"'([^'\\])'", src):
+            if m.group(1) not in lits:
+                lits.append(m.group(1))
+    _LITS = lits[:300]
+    return _LITS
+
+
+def gen_name(rng, kind="func"):
+    """A function / file / module / thread name. Structured C++-like names with argument lists, with non-ASCII text,
+    nothing, very long runs and the splitting punctuation placed next to every structural character."""
+    st = rng.below(10)
+    if st == 0:
+        return rng.choice(["", " ", "(", ")", "()", ")(", "((", "))", "(,)", ",", "::", "<>", "><", "a(", "a)", "(a", ")a", "a()b",
+                           "f(int))", "f((int)", "f(a<b)", "f(a>b)", "f(<,>)", "f(,)", "f( )", "f( )", "::f()", "f()::", "a::b::c(d::e)"])
+    if st == 1:
+        return rng.choice(["x", "é", "(", ",", "<", "a::b(", "f(int, "]) * rng.choice([300, 2000, 5000])
+    atoms = WORDS + SPLITTERS + NONASCII + [l for l in source_literals() if len(l) <= 12]
+    if st == 2:
+        return "".join(rng.choice(atoms) for _ in range(rng.range(1, 12)))
+    # structured: [ns::]Class::method(args)suffix
+    def ident():
+        return rng.choice(["Widget", "paint", "f", "ns", "operator()", "operator<", "~X", "X<int, Y<char> >", "méthode", "日本", "\U0001f600", "x́"])
+    def arg():
+        return rng.choice(["int", "char*", "T<a, b>", "void (*)(int, char)", "", " ", " ", "é", "日本語 const&", "std::map<K, V<(1>2)> >",
+                           "a b", "\U0001f600", "x" * 40, ")", "(", "<", ">", ", "])
+    name = "::".join(ident() for _ in range(rng.choice([1, 1, 2, 3])))
+    args = ", ".join(arg() for _ in range(rng.choice([0, 1, 2, 3, 8]))) if rng.chance(7, 8) else ",".join(arg() for _ in range(3))
+    suffix = rng.choice(["", "", " const", " volatile", " const volatile", " const", "é", "éconst", "日", "\U0001f600x", "́", " ", " ", ")", "(", ") const",
+                         "const", " &&", " [clone .cold]", " (.isra.0)", " const", "﻿", " const "])
+    out = "%s(%s)%s" % (name, args, suffix)
+    if rng.chance(1, 5):        # a non-ASCII character right before / after one structural character
+        cs = [i for i, c in enumerate(out) if c in "(),:<> "]
+        if cs:
+            i = rng.choice(cs)
+            ins = rng.choice(NONASCII)
+            out = out[:i] + ins + out[i:] if rng.chance(1, 2) else out[:i + 1] + ins + out[i + 1:]
+    if kind != "func":
+        out = out.replace("\n", " ")
+    return out.replace("\n", " ").replace("\r", " ")
+
+
+def sp_fixed_rules(rng, cpu, K, K2):
+    """STACK CFI rule families that keep the stack pointer where it is or advance it by less than a pointer, while
+    still producing fresh return addresses (from a callee-saved register that the rules advance, a constant, or two
+    functions returning into each other)."""
+    bits = CPUS[cpu][0]
+    w = bits // 8
+    sp, fp, ra = cfi_regs(cpu)
+    cs = rng.choice(CALLEE_SAVED.get(cpu, [fp]))
+    cs2 = rng.choice(CALLEE_SAVED.get(cpu, [fp]))
+    step = rng.choice([1, 2, 4, 4, 4, 8, 16])
+    adv = rng.choice(["0 +", "0 +", "0 +", "", "1 +", "2 +", "%d +" % (w - 1), "0 -", "%d + %d -" % (w, w), "1 *", "%d @" % w])
+    cfa = ".cfa: %s %s" % (sp, adv)
+    return rng.choice([
+        "%s .ra: %s %s: %s %d +" % (cfa, cs, cs, cs, step),
+        "%s .ra: %s %d + %s: %s %d +" % (cfa, cs, step, cs, cs, step),
+        "%s .ra: %s %s: %s %d + %s: %s" % (cfa, cs, cs, cs, step, sp, sp),
+        "%s .ra: %s %s: %s %s: %s %d +" % (cfa, cs, cs, cs2, cs2, cs2, step),
+        "%s .ra: %d" % (cfa, K),
+        "%s .ra: %d %s: %s" % (cfa, K2, sp, sp),
+        "%s .ra: %s" % (cfa, ra),
+        "%s .ra: %s %s: %s %d +" % (cfa, ra, ra, ra, step),
+        "%s .ra: .cfa ^" % cfa,
+        "%s .ra: .cfa %d - ^ %s: %s %d +" % (cfa, w, cs, cs, step),
+    ])
+
+
+def gen_symbols(rng, cpu, size, targets, spfixed=False, base=0, cover=False):
     """A symbol file for a module of `size` bytes; `targets` are module-relative addresses that
     return addresses in the stacks point at."""
     bits, *_ = CPUS[cpu]
     w = bits // 8
     sp, fp, ra = cfi_regs(cpu)
-    K = rng.choice(targets) if targets else 0x100
+    K = base + (rng.choice(targets) if targets else 0x100)      # an absolute return address inside the module
     lines = ["MODULE %s %s 000000000000000000000000000000000 m" % (rng.choice(["Linux", "windows", "mac"]), cpu)]
     if rng.chance(1, 8):
         lines[0] = rng.choice(["MODULE", "MODULE Linux", "", "MODULE a b c d e f", "MODULE Linux x86 zz"])
     lines.append("INFO CODE_ID ABCDEF")
     nfiles = rng.below(3)
     for i in range(nfiles):
-        lines.append("FILE %d /src/f%d.c" % (i, i))
+        lines.append("FILE %d %s" % (i, "/src/f%d.c" % i if rng.chance(2, 3) else gen_name(rng, "file")))
     if rng.chance(1, 2):
-        lines.append("INLINE_ORIGIN 0 inl0")
-        lines.append("INLINE_ORIGIN 1 inl1")
-    style = rng.below(6)
+        lines.append("INLINE_ORIGIN 0 %s" % ("inl0" if rng.chance(1, 2) else gen_name(rng)))
+        lines.append("INLINE_ORIGIN 1 %s" % ("inl1" if rng.chance(1, 2) else gen_name(rng)))
+    style = rng.below(2) if (spfixed or cover) else rng.below(6)
     funcs = []
     if style == 0:
         funcs = [(0, size)]
@@ -81,7 +189,7 @@ def gen_symbols(rng, cpu, size, targets):
     elif style == 4:
         funcs = [(rng.below(size + 1), rng.below(size + 1)) for _ in range(rng.range(1, 12))]
     for i, (a, s) in enumerate(funcs):
-        lines.append("FUNC %s%x %x %x fn%d" % ("m " if rng.chance(1, 6) else "", a, s, rng.choice([0, 4, 8, U32]), i))
+        lines.append("FUNC %s%x %x %x %s" % ("m " if rng.chance(1, 6) else "", a, s, rng.choice([0, 4, 8, U32]), "fn%d" % i if rng.chance(1, 3) else gen_name(rng)))
         if rng.chance(1, 2) and nfiles:
             for k in range(rng.range(1, 4)):
                 lines.append("%x %x %d %d" % (a + k * 4, rng.choice([4, 1, 0, s]), rng.below(1000), rng.below(nfiles + 1)))
@@ -89,7 +197,7 @@ def gen_symbols(rng, cpu, size, targets):
             lines.append("INLINE %d %d %d %d %x %x" % (rng.below(3), rng.below(100), rng.below(nfiles + 1), rng.below(3), a, rng.choice([s, 4, 0])))
             lines.append("INLINE 1 7 0 1 %x %x %x %x" % (a, max(1, s // 2), a + s // 2, s - s // 2))
     for i in range(rng.below(4)):
-        lines.append("PUBLIC %x %x pub%d" % (rng.below(size + 1), rng.choice([0, 4]), i))
+        lines.append("PUBLIC %x %x %s" % (rng.below(size + 1), rng.choice([0, 4]), "pub%d" % i if rng.chance(1, 2) else gen_name(rng)))
     # ---- STACK CFI
     normal = ".cfa: %s %d + .ra: .cfa %d - ^" % (sp, w * rng.choice([1, 2, 4]), w)
     hostile = [
@@ -112,7 +220,17 @@ def gen_symbols(rng, cpu, size, targets):
         ".cfa: $nosuch 4 + .ra: .cfa ^",
         ".cfa: %s 4 + .ra: .cfa 4 - ^ x29: 111 fp: 222 x30: 5 lr: 6" % sp,
     ]
-    ncfi = rng.below(4)
+    K2 = (base + rng.choice(targets)) if targets else base + 0x200
+    hostile += [sp_fixed_rules(rng, cpu, K, K2) for _ in range(6)]
+    if spfixed:
+        # the whole module under one or two sp-fixed rules (two functions returning into each other)
+        half = max(1, size // 2)
+        if rng.chance(1, 2):
+            lines.append("STACK CFI INIT 0 %x %s" % (size, sp_fixed_rules(rng, cpu, base + rng.below(size), base + rng.below(size))))
+        else:
+            lines.append("STACK CFI INIT 0 %x %s" % (half, sp_fixed_rules(rng, cpu, base + half + rng.below(half), base + half + 8)))
+            lines.append("STACK CFI INIT %x %x %s" % (half, size - half, sp_fixed_rules(rng, cpu, base + rng.below(half), base + 8)))
+    ncfi = rng.below(4) if not spfixed else rng.below(2)
     for _ in range(ncfi):
         a = rng.choice([0, rng.below(size + 1)] + [max(0, t - 8) for t in targets[:3]])
         s = rng.choice([size, size, 16, 64, 0, U32, U64])
@@ -185,7 +303,7 @@ def gen_stack(rng, cpu, base, size, rets, sp_hint):
     return bytes(out)
 
 
-def regs_for(rng, cpu, ip, sp, fp, lr):
+def regs_for(rng, cpu, ip, sp, fp, lr, cs=None):
     bits, ips, sps, fps, lrs, _ = CPUS[cpu]
     m = (1 << bits) - 1
     kv = []
@@ -197,6 +315,11 @@ def regs_for(rng, cpu, ip, sp, fp, lr):
         kv.append("%s=%d" % (n, fp & m))
     for n in lrs:
         kv.append("%s=%d" % (n, lr & m))
+    for n in CALLEE_SAVED.get(cpu, []):
+        n = n.lstrip("$")
+        if n in ("ebp", "rbp", "r11", "r7", "x29", "fp") or rng.chance(1, 3):
+            continue
+        kv.append("%s=%d" % (n, (cs if cs is not None and rng.chance(4, 5) else rng.below(1 << bits)) & m))
     return ",".join(kv)
 
 
@@ -243,22 +366,35 @@ class Gen:
         rng = self.rng
         cpu = rng.choice(CPU_WEIGHTED)
         os_ = rng.choice(OSES)
-        theme = theme or rng.choice(["plain", "plain", "symbols", "symbols", "symbols", "limits", "guard", "instr", "top", "overlap", "modules", "exc", "deep"])
+        theme = theme or rng.choice(["plain", "symbols", "symbols", "symbols", "limits", "guard", "instr", "top", "overlap", "modules", "exc", "deep", "spfixed", "spfixed", "args", "args"])
         if theme in ("guard", "instr"):
             cpu = "amd64"
             if theme == "guard":
                 os_ = rng.choice(["linux", "android", "linux", "win"])
         if theme == "limits":
             os_ = rng.choice(["linux", "android"])
+        if theme == "spfixed":
+            cpu = rng.choice(["arm64", "arm64", "arm64old", "arm", "x86", "amd64", "mips", "mips64"])
+        if theme == "args":
+            cpu = "x86"
         bits = CPUS[cpu][0]
         w = bits // 8
         M = (1 << bits) - 1
-        toks = ["D", "cpu=" + cpu, "os=" + os_, "opt=%d" % rng.choice([0, 1, 2, 2, 3])]
+        # every option set on every CPU; the flags only x86 honours (recover_function_args) mostly on x86
+        opt = rng.choice([0, 1, 2, 2, 3, 4, 5])
+        if cpu == "x86" and (theme == "args" or rng.chance(1, 2)):
+            opt = rng.choice([2, 4, 5])
+        toks = ["D", "cpu=" + cpu, "os=" + os_, "opt=%d" % opt]
+        if opt >= 4 and rng.chance(1, 2):
+            certs = ",".join('\\"%s\\":[\\"mod0.dll\\",\\"%s\\"]' % (rng.choice(["certA", "certB", "c"]) + str(i), rng.choice(["libm0.so", "same.so", "mod1"])) for i in range(rng.range(1, 4)))
+            toks.append("evil=" + hx(rng.choice([('{"ModuleSignatureInfo":"{%s}","CPUMicrocodeVersion":"0x1f"}' % certs).encode(), b"{", b"[]", b'{"ModuleSignatureInfo":7}', b'{"ModuleSignatureInfo":{"c":["m"]}}', b"\xff"])))
         self.count("theme_" + theme)
         self.count("cpu_" + cpu)
         # ---- modules
         mods = []
         nmods = rng.choice([0, 1, 1, 2, 3, 5]) if theme != "modules" else rng.range(2, 8)
+        if theme in ("spfixed", "args"):
+            nmods = rng.choice([1, 1, 2])
         cursor = rng.choice([0x400000, 0x10000000, 0x7000, 0x7f0000000000 & M, M - 0x100000 + 1])
         for i in range(nmods):
             size = rng.choice([0x1000, 0x10000, 0x2000, 0x100])
@@ -278,7 +414,8 @@ class Gen:
                     base, size = mods[-1][0], mods[-1][1]                    # identical
                 elif k == 5:
                     base = rng.choice(HOSTILE64)
-            name = rng.choice(["/usr/lib/libm%d.so" % i, "C:\\w\\mod%d.dll" % i, "mod%d" % i, "/a/same.so", "/b/same.so", "", "..", "/", "m\u00e9%d" % i])
+            name = rng.choice(["/usr/lib/libm%d.so" % i, "C:\\w\\mod%d.dll" % i, "mod%d" % i, "/a/same.so", "/b/same.so", "", "..", "/", "m\u00e9%d" % i,
+                               "/d/" + gen_name(rng, "module")[:200]])
             mods.append((base & U64, size & U32, name))
         good = [(b, s) for (b, s, _) in mods if s and b + s <= U64]
         rets = []
@@ -287,11 +424,11 @@ class Gen:
                 rets.append((b + rng.below(s)) & M)
         # ---- symbols
         nsym = 0
-        if theme in ("symbols", "deep") or rng.chance(1, 4):
+        if theme in ("symbols", "deep", "spfixed", "args") or rng.chance(1, 4):
             for i, (b, s, name) in enumerate(mods):
-                if rng.chance(3, 4):
+                if rng.chance(3, 4) or theme in ("spfixed", "args"):
                     targets = [r - b for r in rets if b <= r < b + max(s, 1)]
-                    toks.append("S=" + hx(gen_symbols(rng, cpu, max(s, 1), targets)))
+                    toks.append("S=" + hx(gen_symbols(rng, cpu, max(s, 1), targets, spfixed=(theme == "spfixed"), base=b, cover=(theme == "args"))))
                     mods[i] = (b, s, name, nsym)
                     nsym += 1
             self.count("with_symbols")
@@ -301,7 +438,7 @@ class Gen:
             b, s = rng.choice(good) if good and rng.chance(1, 2) else (rng.choice(HOSTILE64 + [0x500000]), 0x1000)
             if rng.chance(1, 4):
                 s = rng.choice([0, 1, U32])
-            toks.append("U=%d:%d:%s" % (b & U64, s & U32, hx(rng.choice(["unl.dll", "/x/unl.so", "same.so"]).encode())))
+            toks.append("U=%d:%d:%s" % (b & U64, s & U32, hx(rng.choice(["unl.dll", "/x/unl.so", "same.so", gen_name(rng, "module")[:300]]).encode())))
         # ---- threads
         nthreads = rng.choice([1, 1, 2, 3, 6]) if theme != "overlap" else rng.range(2, 5)
         if theme == "deep":
@@ -312,6 +449,8 @@ class Gen:
             tid = rng.choice([t + 1, t + 1, 0, 0xffffffff, 7])
             tids.append(tid)
             size = rng.choice([0, 8, 64, 64, 256, 1024, 4096]) if theme != "deep" else rng.choice([4096, 16384, 65536])
+            if theme in ("spfixed", "args"):
+                size = rng.choice([64, 64, 256, 1024])
             base = sbase0 + t * 0x10000
             if theme == "overlap":
                 base = sbase0 + t * rng.choice([0, 8, 32, 64])
@@ -329,13 +468,16 @@ class Gen:
                 sp = rng.choice(HOSTILE64 + [base - 1, base - w, base + size, base + size - 1, base + size - w])
             if rng.chance(1, 8):
                 fp = rng.choice(HOSTILE64 + [base + size - w, base + size - 2 * w, base - w])
-            regs = regs_for(rng, cpu, ip, sp, fp, lr)
-            if rng.chance(1, 20):
+            if theme in ("spfixed", "args") and rets:
+                ip = rng.choice(rets)
+                sp = base + w * rng.below(max(1, size // w // 2))
+            regs = regs_for(rng, cpu, ip, sp, fp, lr, cs=(rng.choice(rets) if rets else None))
+            if rng.chance(1, 20) and theme not in ("spfixed", "args"):
                 regs = "-"
             sspec = hx(stack) if any(stack) else ("z%d" % size if size else "-")
             toks.append("T=%d:%d:%s:%s" % (tid, base & U64, sspec, regs))
             if rng.chance(1, 5):
-                toks.append("N=%d:%s" % (tid, hx(rng.choice(["main", "", "w\u00f6rker", "x" * 300]).encode())))
+                toks.append("N=%d:%s" % (tid, hx(rng.choice(["main", "", "w\u00f6rker", "x" * 300, gen_name(rng, "thread")[:400]]).encode())))
         # ---- exception
         if theme in ("exc", "guard", "instr") or rng.chance(1, 2):
             tid = rng.choice(tids) if rng.chance(4, 5) else rng.choice([0x99, 0, 0xffffffff])
@@ -398,7 +540,7 @@ class Gen:
         rng = self.rng
         f = rng.choice(SAMPLES)
         size = os.path.getsize("/repo/testdata/" + f)
-        toks = ["F", "file=" + f, "opt=%d" % rng.choice([0, 1, 2, 3])]
+        toks = ["F", "file=" + f, "opt=%d" % rng.choice([0, 1, 2, 3, 4, 5, 2, 4])]
         nm = rng.choice([0, 0, 1, 2, 4, 16, 64])
         muts = []
         for _ in range(nm):
@@ -423,7 +565,11 @@ class Gen:
         out = []
         alpha = "abMx  \t019+-ulimted"
         for _ in range(n):
-            k = rng.below(4)
+            k = rng.below(5)
+            if k == 4:
+                name = gen_name(rng)[:3000].lstrip(" \t") or "f(a)"      # the FUNC line parser eats leading blanks
+                out.append("A " + hx(name.encode("utf-8", "replace")))
+                continue
             if k == 0:
                 if rng.chance(1, 2):
                     data = gen_limits(rng)
@@ -471,7 +617,8 @@ def parse_kv(ans):
 
 class C03(PropBase):
     pid = "C03"
-    coq_dirs = ["Base", "C08", "C03"]
+    coq_dirs = ["Base", "C08", "C03"]      # C05 / C11 / Gen are imported (other owners): their own gates scan them
+    translators = []
     translators = []
     bins = ["c03"]
     impl_timeout = 600
@@ -555,7 +702,7 @@ class C03(PropBase):
         if ans.startswith("P;;"):
             return "panic while processing or rendering: " + ans[3:240]
         kind = case[0]
-        if kind in "LGSJ":
+        if kind in "LGSJA":
             if not ans.startswith(kind + " ") and ans != kind:
                 return "unparseable site answer " + ans[:100]
             if kind == "G" and ans == "G -":
@@ -576,7 +723,7 @@ class C03(PropBase):
         return None
 
     def nontrivial(self, case, ans):
-        if case[0] in "LGSJ":
+        if case[0] in "LGSJA":
             return not ans.startswith("P;;")
         return " r=ok " in ans and " thr=0 " not in ans
 
